@@ -279,40 +279,70 @@ TOKEN = re.compile(r'[A-Za-z_]\w*|\d[\w.]*|::|->|<<=|>>=|<<|>>|<=|>=|==|!=|&&|\|
 
 CXX_ONLY = set("static_cast template typename constexpr inline auto std :: and or not nullptr "
                "bool throw try catch const & < > erule effective_rule effrule [ ] true false "
-               "size_t vector function unique_ptr override noexcept new delete this".split())
+               "size_t vector function unique_ptr override noexcept new delete this "
+               "Maths OneDimensionalMeta TasGrid RuleLocal Utils IO TasDREAM TasOptimization".split())
 
 def tokens(t):
     return TOKEN.findall(t)
 
-def fidelity(src, emitted, extra_vocab=()):
-    """Token diff between source text and emitted text.  Returns a summary; every
-    differing hunk must touch a C++-specific (or unit-declared) token on the source
-    side, otherwise plain C tokens were dropped or altered -> ExtractionBreak."""
+SIG_OPS = set("+ - / % == != <= >= && || ! = += -= *= /= ++ -- ? << >> <<= >>=".split())
+C_KEYWORDS_SAME = set("if else for while do switch case default return break continue int double float char void unsigned long short sizeof struct".split())
+
+def fidelity(src, emitted, extra_vocab=(), slack=0, window=60):
+    """Order-preserving token check: every *significant* source token (identifiers that
+    are not C++-only / unit-declared rewrite vocabulary, numeric literals, C keywords,
+    arithmetic / comparison / assignment operators) must reappear in the emitted text in
+    the same order (a rule may rename f -> f_<binding> or <cls>_f).  So a rule can
+    translate C++ constructs but cannot drop, reorder or alter the C part of a body.
+    Violation -> ExtractionBreak (exit 2)."""
     a, b = tokens(src), tokens(emitted)
-    sm = difflib.SequenceMatcher(None, a, b, autojunk=False)
-    same = 0
-    hunks = []
     vocab = CXX_ONLY | set(extra_vocab)
-    for tag, i1, i2, j1, j2 in sm.get_opcodes():
-        if tag == 'equal':
-            same += i2 - i1
-            continue
-        s_side, e_side = a[i1:i2], b[j1:j2]
-        hunks.append((' '.join(s_side), ' '.join(e_side)))
-        if tag == 'insert':
-            continue  # pure insertions are spliced contracts / casts; counted
-        if not (set(s_side) & vocab):
-            # tolerate rewrites that only add parentheses/casts around unchanged tokens
-            s2 = [x for x in s_side if x not in '()']
-            e2 = [x for x in e_side if x not in '()']
-            if s2 == e2:
-                continue
-            # instantiation renames f -> f_<binding> (rule R3)
-            if len(s2) == len(e2) and all(y == x or y.startswith(x + '_') for x, y in zip(s2, e2)):
-                continue
-            raise ExtractionBreak("fidelity: source tokens %r were rewritten to %r by no known rule"
-                                  % (' '.join(s_side), ' '.join(e_side)))
+    def significant(tk):
+        if tk in vocab: return False
+        if tk in SIG_OPS or tk in C_KEYWORDS_SAME: return True
+        return bool(re.match(r'^[A-Za-z_]\w*$|^\d', tk))
+    sig = [t for t in a if significant(t)]
+    sigset = sorted(set(t for t in sig if re.match(r'^[A-Za-z_]', t)), key=len, reverse=True)
+    def canon(e):
+        if not re.match(r'^[A-Za-z_]', e) or e in sigset:
+            return e
+        for t in sigset:
+            if e.startswith(t + '_'):
+                return t
+        for t in sigset:
+            if e.endswith('_' + t) or ('_' + t + '_') in e:
+                return t
+        return e
+    nb = [canon(e) for e in b]
+    # exact LCS length (bit-parallel, Hyyro 2004); difflib only supplies a readable listing
+    m = len(sig)
+    masks = {}
+    for i_, t in enumerate(sig):
+        masks[t] = masks.get(t, 0) | (1 << i_)
+    full = (1 << m) - 1
+    V = full
+    for t in nb:
+        U = V & masks.get(t, 0)
+        if U:
+            V = ((V + U) | (V - U)) & full
+    matched = m - bin(V).count('1')
+    n_unmatched = m - matched
+    unmatched = []
+    if n_unmatched:
+        sm0 = difflib.SequenceMatcher(None, sig, nb, autojunk=False)
+        for tag, i1, i2, j1, j2 in sm0.get_opcodes():
+            if tag in ('replace', 'delete'):
+                unmatched += sig[i1:i2]
+        unmatched = unmatched[:max(n_unmatched, 1)]
+    if n_unmatched > slack:
+        raise ExtractionBreak("fidelity: %d significant source tokens have no counterpart in order in the emitted text (allowed %d): %r"
+                              % (n_unmatched, slack, unmatched[:12]))
+    sm = difflib.SequenceMatcher(None, a, b, autojunk=False)
+    same = sum(i2 - i1 for tag, i1, i2, j1, j2 in sm.get_opcodes() if tag == 'equal')
+    hunks = [(' '.join(a[i1:i2]), ' '.join(b[j1:j2])) for tag, i1, i2, j1, j2 in sm.get_opcodes() if tag != 'equal']
     return {"source_tokens": len(a), "emitted_tokens": len(b), "identical_tokens": same,
+            "significant_source_tokens_preserved_in_order": matched,
+            "significant_source_tokens_rewritten_away": unmatched,
             "rewrite_hunks": len(hunks), "sample_hunks": hunks[:6]}
 
 # ------------------------------------------------------------- R5: std::vector
@@ -413,3 +443,45 @@ def r10_receiver_calls(R, t, obj, cls, overloads=None, ptr=True):
             return "%s_%s%s(%s)" % (cls, meth, overloads[key][:-1], obj)
         return "%s(%s%s)" % (name, obj, (", " + a) if a.strip() else "")
     return balanced_call_sub(R, "R10-receiver-call", t, r'\b%s\s*\.\s*(\w+)\s*(?=\()' % re.escape(obj), build)
+
+def r5_copy_init(R, t, caps, size_of=None):
+    """`std::vector<T> a = EXPR;` (copy of another vector) -> array + element-wise assign."""
+    size_of = size_of or (lambda e: e + "_size")
+    def repl(m):
+        T, nm, e = m.group(1), m.group(2), m.group(3).strip()
+        if nm not in caps:
+            raise ExtractionBreak("R5: no capacity declared for local vector %s" % nm)
+        return "TSG_VEC_NEW(%s, %s, %s); tsg_assign_%s(%s, &%s_size, %s_cap, %s, %s);" % (T, nm, caps[nm], T, nm, nm, nm, e, size_of(e))
+    return R.sub("R5-copy-init", r'std::vector<\s*(\w+)\s*>\s+(\w+)\s*=\s*([^;{}()]+);', repl, t)
+
+def r5_swap(R, t, vecs, scalar_type="double", size_of=None, cap_of=None):
+    """std::swap(a, b): element-wise for vectors (vecs: {expr: elem type}), scalar otherwise."""
+    size_of = size_of or (lambda e: e + "_size")
+    cap_of = cap_of or (lambda e: e + "_cap")
+    def build(m, a):
+        x, y = [q.strip() for q in split_top(a)]
+        if x in vecs and y in vecs:
+            T = vecs[x]
+            return "tsg_swap_vec_%s(%s, &%s, %s, %s, &%s, %s)" % (T, x, size_of(x), cap_of(x), y, size_of(y), cap_of(y))
+        if x in vecs or y in vecs:
+            raise ExtractionBreak("R5: swap of a vector with a non-vector: %s" % a)
+        return "TSG_SWAP(%s, %s, %s)" % (scalar_type, x, y)
+    return balanced_call_sub(R, "R5-swap", t, r'\bstd::swap\s*(?=\()', build)
+
+def r2_paren_init(R, t, ctype="double"):
+    """`double a(expr), b, c(0);` -> `double a = (expr), b, c = (0);`"""
+    rx = re.compile(r'\b%s\s+((?:\w+\s*(?:\([^;]*?\))?\s*,\s*)*\w+\s*(?:\([^;]*?\))?)\s*;' % ctype)
+    def repl(m):
+        ds = split_top(m.group(1))
+        out = []
+        hit = False
+        for d in ds:
+            mm = re.match(r'^(\w+)\s*\((.*)\)$', d, re.S)
+            if mm:
+                out.append("%s = (%s)" % (mm.group(1), mm.group(2))); hit = True
+            else:
+                out.append(d)
+        if hit:
+            R.counts["R2-paren-init"] = R.counts.get("R2-paren-init", 0) + 1
+        return "%s %s;" % (ctype, ", ".join(out))
+    return rx.sub(repl, t)
